@@ -20,3 +20,6 @@ pub assume_specification<T>[bool::then_some](b: bool, t: T) -> (r: Option<T>)
 pub assume_specification<T, U, F: FnOnce(T) -> U>[::std::option::Option::<T>::map_or](o: Option<T>, d: U, f: F) -> (r: U)
     requires o is Some ==> call_requires(f, (o->0,)),
     ensures match o { Some(t) => call_ensures(f, (t,), r), None => r == d };
+// Err => T::default(), which is not specified here (sound, weak)
+pub assume_specification<T: ::std::default::Default, E>[::std::result::Result::<T, E>::unwrap_or_default](a: ::std::result::Result<T, E>) -> (r: T)
+    ensures a is Ok ==> r == a->Ok_0;
